@@ -6,10 +6,10 @@ LEVEL_TEXT = ("the status of every solve on a planted, moderately conditioned in
 RULE = ("planted instances with sigma_min([G;A]) >= 0.2, interior/certificate margins >= 0.2; default kktsolver and options; "
         "class signature = entry x planted kind x cone shape class x status x storage x (rows(G)<n and p>0)")
 ASSUMPTIONS = ["'moderately conditioned' is fixed as singular values of [G;A] in [0.2, ~6] and margins >= 0.2, re-measured after every construction step",
-               "cpl/cp/gp classification is exercised by C04 (planted nonlinear families); here conelp, coneqp and their wrappers"]
+               "cpl/cp/gp are classified on planted strictly feasible smooth problems from the C04 families (they have no infeasibility status)"]
 REQUIRED_COUNTERS = ["judged.conelp.feasible", "judged.conelp.pinf", "judged.conelp.dinf", "judged.lp.feasible", "judged.lp.pinf",
                      "judged.lp.dinf", "judged.socp.feasible", "judged.socp.pinf", "judged.sdp.feasible", "judged.sdp.dinf",
-                     "judged.coneqp.feasible", "judged.coneqp.pinf", "judged.qp.feasible", "class.rowsG<n,p>0"]
+                     "judged.coneqp.feasible", "judged.coneqp.pinf", "judged.qp.feasible", "judged.cpl.feasible", "judged.cp.feasible", "judged.gp.feasible", "class.rowsG<n,p>0"]
 
 
 def plan(tier):
@@ -21,3 +21,15 @@ def plan(tier):
 def run(ctx):
     from vlib import solve_cases
     solve_cases.run_classification(ctx)
+
+
+def post_check(counters, maxima, tier):
+    """the recorded cpl non-convergence finding is a ~4%% phenomenon on the unchanged tree; a rate far above that
+    is a different violation (the known-finding entries must not hide a solver that stopped converging)"""
+    out = []
+    n = counters.get("judged.cpl.feasible", 0) + counters.get("nl-not-converged.cpl", 0)
+    bad = counters.get("nl-not-converged.cpl", 0)
+    if n >= 60 and bad > 0.15 * n:
+        out.append(("cpl:non-convergence-rate-above-known-level",
+                    "cpl failed to converge on %d of %d well-posed planted problems (known level ~4%%)" % (bad, n)))
+    return out
